@@ -91,6 +91,20 @@ func (c *Home) V1_Get(a *RArg) (string, *erpc.Status) {
 	return "Home.V1_Get", nil
 }
 
+// Dup has two methods that map to the same service method under both mappers
+// (the documented rows AaBb and Aa__Bb): registering it must report a conflict.
+type Dup struct{ erpc.CallCtx }
+
+func (c *Dup) GetItem(a *RArg) (string, *erpc.Status)   { hit("Dup.GetItem"); return "Dup.GetItem", nil }
+func (c *Dup) Get__Item(a *RArg) (string, *erpc.Status) { hit("Dup.Get__Item"); return "Dup.Get__Item", nil }
+func (c *Dup) Other(a *RArg) (string, *erpc.Status)     { hit("Dup.Other"); return "Dup.Other", nil }
+
+// PDup: the same for push controllers.
+type PDup struct{ erpc.PushCtx }
+
+func (p *PDup) NoteAll(a *RArg) *erpc.Status   { hit("PDup.NoteAll"); return nil }
+func (p *PDup) Note__All(a *RArg) *erpc.Status { hit("PDup.Note__All"); return nil }
+
 type P1 struct{ erpc.PushCtx }
 
 func (p *P1) Note(a *RArg) *erpc.Status    { hit("P1.Note"); return nil }
@@ -141,6 +155,8 @@ var c10Lib = []libItem{
 	{"ABC__XYZ", "callstruct", func() interface{} { return new(ABC__XYZ) }, "ABC__XYZ", []string{"Do"}},
 	{"ABC_XYZ", "callstruct", func() interface{} { return new(ABC_XYZ) }, "ABC_XYZ", []string{"Do", "Do2"}},
 	{"Home", "callstruct", func() interface{} { return new(Home) }, "Home", []string{"Index", "Index_", "V1_Get"}},
+	{"Dup", "callstruct", func() interface{} { return new(Dup) }, "Dup", []string{"GetItem", "Get__Item", "Other"}},
+	{"PDup", "pushstruct", func() interface{} { return new(PDup) }, "PDup", []string{"NoteAll", "Note__All"}},
 	{"P1", "pushstruct", func() interface{} { return new(P1) }, "P1", []string{"Note", "NoteAll"}},
 	{"PAaBb", "pushstruct", func() interface{} { return new(PAaBb) }, "PAaBb", []string{"Get"}},
 	{"FnPlain", "callfunc", func() interface{} { return FnPlain }, "FnPlain", nil},
